@@ -57,7 +57,9 @@ def get(url: str, result: dict[str, typing.Any]) -> bytes:
             headers={"User-Agent": agent, "Accept": ACCEPT_HEADER},
             timeout=10,
         )
-    except requests.RequestException as exception:
+    except (requests.RequestException, ValueError) as exception:
+        # (some malformed URLs, e.g. in a redirect, surface as a plain
+        # ValueError from the URL parser rather than as InvalidURL)
         result["bozo"] = True
         result["bozo_exception"] = exception
         return b""
